@@ -1927,21 +1927,21 @@ theorem f07_program_completes (σ : St) :
     statement is dropped -/
 def demoProgram : List Expr :=
   [.set "x" (.litInt 5),
-   .set "c" (.mutE none (.litInt 3)),
+   .set "c" (.mutE (some .int) (.litInt 3)),
    .ifElse (.bin .eq (.var "x") (.litInt 5))
      (.block [.litInt 1, .bin .add (.at (.array [.litInt 1, .var "x"]) (.litInt 1)) (.pre .deref (.var "c"))])
      (some (.block [.litInt 0]))]
 
 def demoFolded : List Expr :=
   [.set "x" (.litInt 5),
-   .set "c" (.mutE none (.litInt 3)),
+   .set "c" (.mutE (some .int) (.litInt 3)),
    .block [.bin .add (.litInt 5) (.pre .deref (.var "c"))]]
 
 end Ssl.Fold
 
 namespace Ssl.Fold
-example : coveredS demoProgram = true := by decide
-example : foldProgram demoProgram = .ok demoFolded := by
+theorem demo_covered : coveredS demoProgram = true := by decide
+theorem demo_folds : foldProgram demoProgram = .ok demoFolded := by
   simp [demoProgram, demoFolded, foldProgram, foldSeq, fold, foldList, foldOpt, foldBin, foldAt, foldPre, constOf,
     crConst, crVal, isCreationLit, isConst, isConstL, CEnv.lookup, foldsConst, ofExec, exprOfVal, valOf, valOfL,
     Spec.binScalar, Spec.veq, Seq.atIdx, i64, bind, Except.bind, pure, Except.pure]
